@@ -68,16 +68,21 @@ def normalize(E, shape, R, wf, sort, normtype):
             _unit_cols(E, K, [n for n in range(N) if n != wf], normtype, "normalize(weight_factor)")
 
 
-@ob("C08", params=[dict(shape=(2, 2), R=2, mode=m) for m in (0, 1)] + [dict(shape=(2, 3, 2), R=1, mode=1)],
-    bounds="normalize(mode=k): only that mode's columns are normalised, their norms multiplied into the weights")
-def normalize_mode(E, shape, R, mode):
+@ob("C08", params=[dict(shape=(2, 2), R=2, mode=m, normtype=t) for m in (0, 1) for t in (2, 1)]
+    + [dict(shape=(2, 3, 2), R=1, mode=m, normtype=t) for m, t in ((1, 2), (1, 1), (0, 1), (2, 1))], max_paths=20000,
+    bounds="normalize(mode=k, normtype in {2, 1}): only that mode's columns are normalised, their norms multiplied into the weights; "
+           "entries of any sign (columns with negative / mixed-sign / zero entries by forks)")
+def normalize_mode(E, shape, R, mode, normtype):
     """normalize(mode=k) keeps the array; columns of mode k get unit norm"""
     K = O.kruskal(E, "k", shape, R)
     before = O.den(K)
     others = [O.cells(K.factor_matrices[n]) for n in range(len(shape))]
-    K.normalize(mode=mode)
+    if normtype == 2:
+        K.normalize(mode=mode)
+    else:
+        K.normalize(mode=mode, normtype=normtype)
     E.eq(O.den(K), before, "array unchanged")
-    _unit_cols(E, K, [mode], 2, "normalize(mode)")
+    _unit_cols(E, K, [mode], normtype, "normalize(mode)")
     for n in range(len(shape)):
         if n != mode:
             E.eq(K.factor_matrices[n], others[n], "other factor matrices untouched")
